@@ -25,5 +25,8 @@ def main(tier):
     inl |= suggest.run(chk, 'C06', tier)
     inl |= earlystop.run(chk, 'C06', tier)
     pythia_frame.run(chk, 'C06')
+    pythia_frame.run_reporting(chk, 'C06')
+    from contracts import volatile_frame
+    volatile_frame.run_client(chk, 'C06')
     chk.extra['inlined_real_functions'] = sorted(inl)
     return chk.finish(min_obligations=20)
